@@ -26,6 +26,17 @@ StepTime(e) ==
          /\ Check(e.clock_hour_of_half_day = (IF (s \div 3600) % 12 = 0 THEN 12 ELSE (s \div 3600) % 12), "clock_hour_of_half_day")
          /\ Check(Big(e.tick_of_day) = Add(MulSmall(MulSmall(FromInt(s), 10000), 1000), FromInt(n \div 100)), "tick_of_day")
          /\ Check(Big(e.nanosecond_of_day) = Add(MulSmall(MulSmall(FromInt(s), 100000), 10000), FromInt(n)), "nanosecond_of_day")
+         /\ (Has(e, "microsecond") => Check(e.microsecond = n \div 1000, "subsecond_accessors_decompose"))
+    [] e.op = "lt_from" ->
+         \* a time built from fields: every field inside its range gives exactly that time of day, anything else raises
+         LET valid == e.h \in 0..23 /\ e.mi \in 0..59 /\ e.s \in 0..59 /\ e.ok IN
+         IF valid THEN /\ Check(~Has(e, "exc"), "time_from_valid_fields_must_not_raise")
+                       /\ (Has(e, "res") => Check(e.res = <<e.h * 3600 + e.mi * 60 + e.s, e.sub>>, "time_from_fields_exact"))
+         ELSE Check(Has(e, "exc"), "time_from_fields_out_of_range_must_raise")
+    [] e.op = "lt_since" ->
+         IF e.inside THEN /\ Check(~Has(e, "exc"), "time_since_midnight_in_range_must_not_raise")
+                          /\ LET r == SubDay(e) IN (Has(e, "res") => Check(e.res = <<r[2], r[3]>>, "time_since_midnight_exact"))
+         ELSE Check(Has(e, "exc"), "time_since_midnight_out_of_range_must_raise")
     [] e.op = "lt_plus" ->
          \* wraps modulo 24 hours: only the sub-day part of the amount matters
          LET r == Add3(<<0, e.t[1], e.t[2]>>, SubDay(e)) IN
